@@ -22,7 +22,18 @@ HARD_STRINGS = [
     "", "x", "a,b", 'q"uote', "line\nbreak", "cr\rlf\r\n", "é", "日本", "_none", "_none ", "t_",
     "_tag_k", ";", "\t", "'", "_field_", "f_", "t", "f", "_", "_t", "_f", "tt", "\x00", "𝄞", " lead",
     "trail ", "_default",
+    # characters str.splitlines() breaks at but the csv module does not; text that Unicode normalisation
+    # (NFC/NFKC) or case folding would rewrite; a backslash and a pipe for the escapechar / delimiter dialects
+    "v\x0bt", "f\x0cf", "fs\x1c", "rs\x1e.", "nel\x85x", "ls\u2028x", "ps\u2029", "e\u0301", "\u212b",
+    "\u1100\u1161", "ﬁ", "ß", "back\\slash", "pi|pe", "\ufeffbom",
 ]
+
+# numbers whose Python hashes collide pairwise (hash(-1) == hash(-2), hash(inf) == hash(314159),
+# hash(0) == hash(2**61 - 1), hash(0.5) == hash(2**60)): a cache keyed by hash() confuses them
+HASH_TWINS = {"-1": "-2", "-2": "-1", "inf": "314159", "314159": "inf", "0": "2305843009213693951",
+              "2305843009213693951": "0", "1/2": "1152921504606846976", "1152921504606846976": "1/2"}
+# presentations (UTC offset in minutes) of the instants used as query operands and point times
+PRES = ["", "", "", "@0", "@120", "@-300", "@345", "@-720"]
 
 
 def opt_hx(v):
@@ -35,11 +46,12 @@ class Gen:
         self.meas = meas or MEAS
         self.filter_extra = []     # extra names used only as filters / handle names
         self.hard = hard
+        self.wide = False          # numbers with colliding hashes as field values and operands
 
     # -- points ----------------------------------------------------------
 
     def time(self):
-        return str(T0 + self.r.choice(TIME_OFFS))
+        return str(T0 + self.r.choice(TIME_OFFS)) + self.r.choice(PRES)
 
     def tag_val(self):
         if self.hard and self.r.random() < 0.5:
@@ -67,7 +79,7 @@ class Gen:
             if k in seen:
                 continue
             seen.add(k)
-            fields.append([hx(k), r.choice(FIELD_VALS)])
+            fields.append([hx(k), r.choice(FIELD_VALS + ["-2", "314159", "1/2"] if self.wide else FIELD_VALS)])
         m = meas if meas is not None else r.choice(self.meas)
         return ["pt", time or self.time(), hx(m), ["tags"] + tags, ["fields"] + fields]
 
@@ -75,7 +87,7 @@ class Gen:
 
     def time_leaf(self):
         r = self.r
-        t = f"t:{T0 + r.choice([0, 1, 2, 4, 8])}"
+        t = f"t:{T0 + r.choice([0, 1, 2, 4, 8])}" + r.choice(PRES)
         c = r.random()
         if c < 0.7:
             return ["cmp", r.choice(CMPS), t]
@@ -126,6 +138,8 @@ class Gen:
         r = self.r
         c = r.random()
         rhs = r.choice(["n:0", "n:1", "n:5/2", "~", "n:-1", "n:inf"])
+        if self.wide and r.random() < 0.7:
+            rhs = "n:" + r.choice(sorted(HASH_TWINS))
         if c < 0.55:
             return ["cmp", r.choice(CMPS), rhs]
         if c < 0.7:
@@ -226,6 +240,24 @@ class Gen:
         else:
             op = [k, q, m]
         return self.maybe_via(op, m)
+
+    def twin(self, op):
+        """the same operation with the first numeric comparison operand replaced by a number whose hash() is
+        the same (None when the operation has no such operand)"""
+        done = [False]
+
+        def go(t, in_field=False):
+            # only under a field query: a tag / measurement / time query type-checks a truthy operand
+            if isinstance(t, str):
+                return t
+            if (in_field and not done[0] and len(t) == 3 and t[0] == "cmp" and isinstance(t[2], str)
+                    and t[2].startswith("n:") and t[2][2:] in HASH_TWINS):
+                done[0] = True
+                return [t[0], t[1], "n:" + HASH_TWINS[t[2][2:]]]
+            return [go(x, in_field or (bool(t) and t[0] == "field")) for x in t]
+
+        out = go(op)
+        return out if done[0] else None
 
     def maybe_via(self, op, m):
         if m != "~" and self.r.random() < 0.4:
